@@ -90,8 +90,8 @@ func genAlias(t *rapid.T) aliasCase {
 	}
 	d := &gen.Decoders[rapid.IntRange(0, len(gen.Decoders)-1).Draw(t, "decoder")]
 	n := rapid.IntRange(0, 40).Draw(t, "n")
-	if len(d.Lens) > 0 {
-		n = rapid.SampledFrom(d.Lens).Draw(t, "len")
+	if len(d.AcceptedLens()) > 0 {
+		n = rapid.SampledFrom(d.AcceptedLens()).Draw(t, "len")
 	}
 	c := aliasCase{Decoder: d.Name, Uplink: rapid.Bool().Draw(t, "uplink"), Input: gen.Bytes(t, "bytes", n)}
 	steer(t, d.Name, c.Input)
@@ -418,8 +418,8 @@ func genReuse(t *rapid.T) reuseCase {
 	d := &gen.Decoders[rapid.IntRange(0, len(gen.Decoders)-1).Draw(t, "decoder")]
 	pick := func(label string) []byte {
 		n := rapid.IntRange(0, 40).Draw(t, label+"n")
-		if len(d.Lens) > 0 && rapid.IntRange(0, 9).Draw(t, label+"fit") != 0 {
-			n = rapid.SampledFrom(d.Lens).Draw(t, label+"len")
+		if len(d.AcceptedLens()) > 0 && rapid.IntRange(0, 9).Draw(t, label+"fit") != 0 {
+			n = rapid.SampledFrom(d.AcceptedLens()).Draw(t, label+"len")
 		}
 		var b []byte
 		switch rapid.IntRange(0, 3).Draw(t, label+"fill") {
@@ -671,6 +671,10 @@ func TestProp(t *testing.T) {
 	evid.Rapid(r, t, "reuse-differential",
 		fmt.Sprintf("rapid: for each of the %d decoder types: decode b1 then b2 into the same value vs. b2 into a fresh one (lengths from each type's accepted lengths; contents random / 0x00 / 0xFF; command wrappers steered to known CIDs; a quarter with the other direction for b2); whenever both succeed the two values must be observably equal, and they must succeed or fail together. Non-trivial: b1 has a bit set that b2 lacks, or is longer.", len(gen.Decoders)),
 		300000, 10000000, genReuse, checkReuse)
+
+	evid.Rapid(r, t, "reuse-text-doors",
+		"rapid: the types that decode from text - EUI64, DevAddr, NetID, AES128Key, DLSettings (hexadecimal, either case, optional 0x, sometimes one byte short / long or with a non-hex character) and PHYPayload (base64 of generated frames, sometimes cut) - through UnmarshalText, through encoding/json into an existing value, and for the four identifiers through Scan: text t1 then t2 into the same value vs. t2 into a fresh one; they must succeed or fail together and, when both succeed, be observably equal. Non-trivial: both accepted and t1 != t2.",
+		100000, 3000000, genTextReuse, checkTextReuse)
 
 	evid.Rapid(r, t, "band-instances",
 		"rapid: two GetConfig results for the same (name, repeater, dwell); a generated AddChannel/Disable/Enable history on one; after every step the other's internal tables (snapshot hook) and public getters (index sets, CFList, LinkADRReq plan) are unchanged, and a configuration obtained afterwards equals the pristine one. Non-trivial: the history changed the first object.",
